@@ -659,6 +659,13 @@ class MinMaxAggregator:
                 rest_cond.append(cond)
         assert oldmax is not None
 
+        # the value is only replaced in the weight, nothing else may look at it
+        if any(
+            var.name == varname for ast in (*rest_cond, stm.priority, *stm.terms) for var in collect_ast(ast, "Variable")
+        ):
+            log.info(f"Cannot use chaining in {loc2str(stm.location)} as {varname} is not only used as weight.")
+            return [stm]
+
         # check if all Variables from old predicate are used in the tuple identifier
         # to make a unique semantics
         # see issue #8
